@@ -714,7 +714,13 @@ def check_c08(res, tier, replay):
         for _ in range(nrand):
             n = rng.randrange(0, 80)
             m = n if rng.random() < 0.7 else rng.randrange(0, 80)
-            groups.append((gen_word(rng, m), gen_closes(rng, n)))
+            vals = gen_closes(rng, n)
+            r = rng.random()
+            if r < 0.12:        # a very expensive asset (one unit of cash buys a tiny fraction of a share) …
+                vals = [v * 2.0 ** rng.choice([20, 24, 40]) for v in vals]
+            elif r < 0.24:      # … and a very cheap one: the simulation is in relative terms, the price level is irrelevant
+                vals = [v * 2.0 ** rng.choice([-15, -30]) for v in vals]
+            groups.append((gen_word(rng, m), vals))
         for n in (1, 2, 5, 30):
             groups.append(([B] + [H] * (n - 1), gen_closes(rng, n)))     # buy and hold
     progs = ['w:0', 'w:0,Normalize', 'w:0,Normalize,Denormalize,Normalize', 'w:0,Denormalize']
